@@ -1,4 +1,5 @@
 import PqV.Spec.Thrift
+import PqV.Lemmas.Thrift
 import PqV.Impl.ThriftSer
 import PqV.Gen.Idl
 import PqV.Gen.Specs
@@ -85,5 +86,18 @@ def narrowFields : List (String × String) :=
   Idl.structs.flatMap fun (s, fs) => (fs.filter fun f => f.ty == .i8 || f.ty == .i16).map fun f => (s, f.name)
 
 theorem narrow_fields : narrowFields = [("IntType", "bitWidth"), ("RowGroup", "ordinal")] := by decide +kernel
+
+/-- **lossless at specification level, for every structure**: the compact-protocol decoder the Lean
+    reader uses returns exactly the structure that was encoded — any nesting of structs and lists,
+    short and long field headers, short and long list headers, booleans in fields and in lists, all
+    integer widths, binaries, doubles — and leaves the bytes that follow untouched.  (The serialiser
+    of fastparquet is tied to this specification by the 3-way correspondence; where it departs —
+    field id 14, narrow ints, empty-list type byte — is listed as known findings.) -/
+theorem spec_roundtrip_any_structure (fs : List (Nat × PqV.Spec.TVal)) (hok : PqV.Spec.fieldsOk 0 fs = true) (rest : List Nat) :
+    PqV.Spec.decStruct (PqV.Spec.encFields 0 fs ++ rest) = some (.struct fs, rest) :=
+  PqV.Spec.decStruct_enc fs hok rest
+
+example : PqV.Spec.fieldsOk 0 [(1, .i32 (-5)), (3, .list 1 [.bool true, .bool false]), (20, .struct [(2, .binary [7, 8])])] = true := by
+  decide
 
 end PqV.Props.C10
